@@ -32,6 +32,7 @@ def families(tier):
     q = [
         {'name': 'A1a', 'params': {'hist': 'BMB', 'kinds': KINDS_ALL, 'roles': ['in/x', 'in', 'o', 'o/f', 'o/d']}},
         {'name': 'A2a', 'params': {'hist': 'BMB', 'kinds': KINDS_MED}},
+        {'name': 'A2a', 'params': {'hist': 'BB', 'kinds': ['list_dir', 'walk'], 'roles': ['in', 'o'], 'perm': True}},
         {'name': 'A3', 'params': {'hist': 'BMB', 'kinds': ['list_dir'], 'roles': ['o'], 'targets': ['o/d/g'],
                                   'mut_paths': mp4}},
         {'name': 'A3', 'params': {'hist': 'BMB', 'kinds': ['read_m'], 'roles': ['in/x'], 'targets': ['o/f', 'in/y'],
@@ -78,7 +79,7 @@ def harness(eng, fam, P):
     bodies = skeleton(eng, fam, P)
     progs = [Program(eng, b) for b in bodies]
     eng.path_info['program'] = ' || '.join(show(b) for b in bodies)
-    w = World(eng, P.get('universe', U7), sandbox=getattr(eng, 'sandbox', None))
+    w = World(eng, P.get('universe', U7), sandbox=getattr(eng, 'sandbox', None), perm_listdir=P.get('perm'))
     try:
         d = Driver(eng, w)
         nb = 0
